@@ -485,6 +485,26 @@ func (w *World) Propose(n *Node, trx *transaction.Transaction, tag string) (acco
 	return v, err
 }
 
+// ProposeCancelled calls the real CreateLeaf with a context that is cancelled already (an impatient client).
+func (w *World) ProposeCancelled(n *Node, trx *transaction.Transaction, tag string) (accountant.Vertex, error) {
+	t := *trx
+	ctx, cancel := context.WithCancel(context.Background())
+	cancel()
+	v, err := n.Book.CreateLeaf(ctx, &t)
+	if err == nil {
+		w.Hist.Add(&v)
+	}
+	w.Logf("%s.propose-cancelled-ctx[%s] %s->%s %s trx=%s => %s", n.Name, tag, w.NameOf(trx.IssuerAddress), w.NameOf(trx.ReceiverAddress), MelStr(trx.Spice), Hex(trx.Hash), resStr(&v, err))
+	op := OpInfo{Kind: "propose", OK: err == nil, Err: err}
+	if err == nil {
+		op.Created = &v
+	}
+	if !w.Quiet {
+		w.Observe(n, op)
+	}
+	return v, err
+}
+
 func resStr(v *accountant.Vertex, err error) string {
 	if err != nil {
 		return "ERR " + firstLine(err.Error())
